@@ -66,8 +66,31 @@ Definition api_open (d : psd) : api_result :=
   | Ok rs => match B.open_doc rs with B.Opened f => ApiOpened f | B.Raised c => ApiRaised c end
   end.
 
-(* what save() writes: nothing was edited, _update_record returns at once *)
-Definition api_save (enc_s : list Z -> res (list Z)) (pad : Z) (d : psd) : W := write_psd enc_s pad d.
+(* The two section-divider payloads are the one place where this level differs from the container level: they were
+   parsed by their class when the file was read (PSDImage needs their kind) and are written back by the class writer,
+   not as the raw bytes.  [api_norm d]: d with every 'lsct' / 'lsdk' payload replaced by what
+   SectionDividerSetting.write emits for the value read; a payload is CANONICAL when that changes nothing (true of
+   everything psd-tools or Photoshop writes: 4, 12 or 16 bytes, no stray tail). *)
+Definition renorm_tb (b : tagged_block) : tagged_block :=
+  if (tb_key b =? key_lsct) || (tb_key b =? key_lsdk) then
+    match read_leaf KSectionDivider (tb_data b) with
+    | Ok l => match write_leaf 4 l with Ok (bs, _) => mkTB (tb_sig b) (tb_key b) bs | Err _ => b end
+    | Err _ => b
+    end
+  else b.
+Definition renorm_rec (r : layer_record) : layer_record :=
+  Model.mkRec (r_top r) (r_left r) (r_bottom r) (r_right r) (r_channels r) (r_sig r) (r_blend r) (r_opacity r)
+              (r_clip r) (r_flags r) (r_mask r) (r_ranges r) (r_name r) (map renorm_tb (r_blocks r)).
+Definition api_norm (d : psd) : psd :=
+  let l := p_lami d in
+  mkPSD (p_header d) (p_cmd d) (p_res d)
+        (mkLAMI (option_map (fun li => mkLI (li_count li) (option_map (map renorm_rec) (li_records li)) (li_chans li)) (la_info l))
+                (la_glmi l) (la_blocks l))
+        (p_img d).
+Definition lsct_canonical (d : psd) : Prop := api_norm d = d.
+
+(* what save() writes: nothing was edited, _update_record returns at once; PSD.write of the structure read *)
+Definition api_save (enc_s : list Z -> res (list Z)) (pad : Z) (d : psd) : W := write_psd enc_s pad (api_norm d).
 
 (* ... and what a forced rebuild would hand to the writer: the records picked by identity in the order of
    _build_record_tree *)
